@@ -53,7 +53,24 @@ def canonical_order(msg):
     return msg
 
 
+_calls = [0]
+
+
+def _scratch_path():
+    d = os.environ.get("VERIF_PKG_DIR") or "/tmp"    # removed at exit
+    return os.path.join(d, "verif-%d.gtirb" % os.getpid())
+
+
 def save(ir):
+    """every fourth call goes through the path-based entry point
+    (`IR.save_protobuf(file_name)`), the others through the file-object one"""
+    _calls[0] += 1
+    if _calls[0] % 4 == 0:
+        path = _scratch_path()
+        with core.time_limit(60):
+            ir.save_protobuf(path)
+        with open(path, "rb") as fh:
+            return fh.read()
     buf = io.BytesIO()
     with core.time_limit(60):
         ir.save_protobuf_file(buf)
@@ -61,6 +78,13 @@ def save(ir):
 
 
 def load(gtirb, raw):
+    _calls[0] += 1
+    if _calls[0] % 4 == 1:
+        path = _scratch_path()
+        with open(path, "wb") as fh:
+            fh.write(raw)
+        with core.time_limit(60):
+            return gtirb.IR.load_protobuf(path)
     with core.time_limit(60):
         return gtirb.IR.load_protobuf_file(io.BytesIO(raw))
 
